@@ -36,8 +36,11 @@ ASSUMPTIONS = [
 LEVEL_TEXT = ("Generated round trips of unit-carrying values, boxes, atoms, systems and elastic tensors through the "
               "in-memory model, JSON and XML text (and dump/load of system_model to text, stream, file), written and read "
               "under different working units; every stored-with-unit quantity is compared as a physical value against "
-              "the generating numbers, unit-less ones exactly.")
-TECHNIQUE = "round-trip against generating data; own unit factors from numericalunits; own s.V+o for scaled storage"
+              "the generating numbers, unit-less ones exactly.  Arrays are given in C, transposed, Fortran, axis-swapped and "
+              "strided memory layouts; a Box that receives a model has another cell and used reciprocal vectors beforehand, and "
+              "its reciprocal vectors, position maps and box-scaled storage are compared with own arithmetic afterwards.")
+TECHNIQUE = ("round-trip against generating data; own unit factors from numericalunits; own s.V+o and (x-o).inv(V) for scaled "
+             "storage and for a reloaded Box's derived quantities; memory-layout variation of the inputs")
 WALL = {'quick': 75, 'thorough': 600}
 
 EPS = 2.3e-16
@@ -759,19 +762,28 @@ def oracle_elastic(case):
 CLAUSES = [
     Clause('value', oracle_value, g.value_cases, quick=14000, thorough=180000,
            min_share={'nt': 0.3, 'cfg_differ': 0.2, 'enc_xml': 0.15, 'enc_json': 0.15, 'rank3': 0.08, 'rank4': 0.06, 'unit': 0.2,
-                      'error': 0.08, 'kind_i': 0.08},
+                      'error': 0.08, 'kind_i': 0.08, 'nonC': 0.15, 'nonC_nonF': 0.04, 'lay_T': 0.07, 'lay_F': 0.06, 'lay_S': 0.02,
+                      'lay_SF': 0.02, 'lay_X': 0.015, 'error_nonC': 0.03},
            desc='uc.model -> (dict | JSON | XML) -> uc.value_unit / error_unit: shape, dtype kind, physical value; write and read '
-                'under different working units'),
+                'under different working units; value and error arrays in C / transposed / Fortran / axis-swapped / strided layouts'),
     Clause('box', oracle_box, g.box_cases, quick=4000, thorough=50000,
-           min_share={'nt': 0.2, 'cfg_differ': 0.3, 'origin': 0.2, 'rotated': 0.2},
-           desc='Box.model(length_unit) -> Box(model=) / Box.model(model=): cell and origin as physical lengths'),
+           min_share={'nt': 0.2, 'cfg_differ': 0.3, 'origin': 0.2, 'rotated': 0.2, 'fresh': 0.15, 'prior_used': 0.2,
+                      'prior_cell_differs': 0.25, 'prior_recip': 0.1, 'prior_c2r': 0.1, 'prior_scaled': 0.05, 'in_system': 0.1,
+                      'prior_unused': 0.04},
+           desc='Box.model(length_unit) -> Box(model=) / Box.model(model=) into a Box (alone or held by a System) that had another '
+                'cell and whose reciprocal vectors / position maps / box-scaled storage were used: cell and origin as physical '
+                'lengths, then reciprocal vectors, both position maps and a box-scaled System.model against own arithmetic'),
     Clause('atoms', oracle_atoms, g.atoms_cases, quick=8000, thorough=100000,
-           min_share={'nt': 0.25, 'natoms1': 0.08, 'prop_s': 0.12, 'prop_i': 0.1, 'proprank3': 0.12, 'unit_prop': 0.12, 'subset': 0.05},
+           min_share={'nt': 0.25, 'natoms1': 0.08, 'prop_s': 0.12, 'prop_i': 0.1, 'proprank3': 0.12, 'unit_prop': 0.12, 'subset': 0.05,
+                      'nonC': 0.3, 'pos_nonC': 0.2, 'prop_nonC': 0.18, 'prop_nonC_nounit': 0.1, 'nonC_nonF': 0.12, 'lay_T': 0.15,
+                      'lay_F': 0.13, 'lay_S': 0.06, 'lay_SF': 0.06, 'lay_X': 0.07},
            desc='Atoms.model(prop_name/unit | prop_unit | defaults) -> Atoms(model=): every listed property, shapes, dtype kinds, units'),
     Clause('system', oracle_system, g.system_cases, quick=16000, thorough=220000,
            min_share={'nt': 0.25, 'pos_scaled': 0.1, 'scaled_prop': 0.06, 'mass_first_none': 0.04, 'symbols_holes': 0.08,
                       'masses_holes': 0.1, 'route_dump': 0.15, 'route_model': 0.15, 'route_dump_f': 0.04, 'route_dump_path': 0.03,
-                      'enc_xml': 0.15, 'cfg_differ': 0.15, 'natoms1': 0.07, 'proprank3': 0.12, 'prop_s': 0.1},
+                      'enc_xml': 0.15, 'cfg_differ': 0.15, 'natoms1': 0.07, 'proprank3': 0.12, 'prop_s': 0.1,
+                      'nonC': 0.3, 'pos_nonC': 0.25, 'prop_nonC': 0.2, 'prop_nonC_nounit': 0.12, 'nonC_nonF': 0.15, 'lay_T': 0.15,
+                      'lay_F': 0.13, 'lay_S': 0.07, 'lay_SF': 0.08, 'lay_X': 0.1},
            desc='System.model/System(model=) and dump/load system_model (text, stream, path): cell, origin, pbc, symbols, masses, '
                 'every property incl. box-scaled storage, written and read under different working units'),
     Clause('elastic', oracle_elastic, g.elastic_cases, quick=4000, thorough=50000,
